@@ -85,9 +85,11 @@ def spec_lib_fn_names():
     function of the CODE with one of these names would shadow it inside the contracts"""
     global _SPEC_FNS
     if _SPEC_FNS is None:
-        _SPEC_FNS = set()
-        for f in glob.glob(os.path.join(VERIF, 'spec', '*.rs')):
-            _SPEC_FNS |= set(re.findall(r'\bfn\s+(\w+)', open(f).read()))
+        # (built locally and published in one assignment: the flavours run in parallel threads)
+        names = set()
+        for f in sorted(glob.glob(os.path.join(VERIF, 'spec', '*.rs'))):
+            names |= set(re.findall(r'\bfn\s+(\w+)', open(f).read()))
+        _SPEC_FNS = names
     return _SPEC_FNS
 
 
